@@ -110,3 +110,12 @@ X5_EXEMPT_CLASSES = {NS + 'GeodesicLine': 'the documented exception in the prope
                      NS + 'SphericalHarmonic2': 'as SphericalHarmonic'}
 # validation helpers that the witness interpreter follows although they are large
 X5_FOLLOW = {NS + 'LambertConformalConic::Init', NS + 'AlbersEqualArea::Init', NS + 'NormalGravity::Initialize'}
+
+# LIC: audited reads (one function, named locals, reason)
+LIC_AUDITED = {
+    (NS + 'Gnomonic::Reverse', 'lat1'): 'assigned by line.Position in the Newton loop, which runs at least once '
+                                        '(count = numit_ = 5); consumed only if trip != 0 and trip is set inside the loop',
+    (NS + 'Gnomonic::Reverse', 'lon1'): 'as lat1',
+    (NS + 'Gnomonic::Reverse', 'azi1'): 'as lat1',
+    (NS + 'Gnomonic::Reverse', 'M'): 'as lat1',
+}
